@@ -19,6 +19,7 @@ Proof.
   | |- context [if ?b then _ else _] => destruct b; simpl; auto
   | |- context [match stack ?x with _ => _ end] => destruct (stack x); simpl; auto
   | |- context [match top ?x with _ => _ end] => destruct (top x); simpl; auto
+  | |- context [match pre ?x with _ => _ end] => destruct (pre x) as [[? ?]|]; simpl; auto
   | |- context [match ?k with SPlain => _ | SService => _ end] => destruct k; simpl; auto
   end; try (apply upd_other; auto); try (rewrite nth_error_app1; auto).
 Qed.
@@ -37,6 +38,7 @@ Proof.
   | |- context [if ?b then _ else _] => destruct b; simpl; auto
   | |- context [match stack ?x with _ => _ end] => destruct (stack x); simpl; auto
   | |- context [match top ?x with _ => _ end] => destruct (top x); simpl; auto
+  | |- context [match pre ?x with _ => _ end] => destruct (pre x) as [[? ?]|]; simpl; auto
   | |- context [match ?k with SPlain => _ | SService => _ end] => destruct k; simpl; auto
   end; rewrite ?upd_length, ?app_length; simpl; lia.
 Qed.
@@ -157,3 +159,19 @@ Theorem service_task_context : forall s t x owner,
   nth_error s t = Some x -> alive x = true -> top x = Some owner ->
   snd (step s (Spawn t SService)) = OSpawned (length s) (Some (length s, 0)) (Some owner).
 Proof. intros s t x owner H A T. simpl. now rewrite H, A, T. Qed.
+
+(* entering a context that was created earlier -- possibly while another context was current, so
+   that its parent is not what is current now -- and leaving it by any route restores what was
+   current before entry (not the context's parent) *)
+Theorem leave_restores_pre : forall s t x c p h,
+  nth_error s t = Some x -> alive x = true -> pre x = Some (c, p) -> fst c = t ->
+  let s1 := fst (step s (EnterPre t)) in
+  snd (step s (EnterPre t)) = OEntered c p /\
+  exists x2, nth_error (fst (step s1 (Leave t h))) t = Some x2 /\ stack x2 = stack x /\
+             snd (step s1 (Leave t h)) = OCurrent (top x).
+Proof.
+  intros s t x c p h H A Pr Fc. simpl. rewrite H, Pr, A. simpl. split; auto.
+  assert (L : t < length s) by (apply nth_error_Some; congruence).
+  rewrite upd_same by auto. simpl. rewrite Fc, Nat.eqb_refl. simpl.
+  eexists. split; [apply upd_same; now rewrite upd_length|]. split; auto.
+Qed.
